@@ -5,16 +5,18 @@ the ten shapes of a record line the tokens have), `to_rr`, `parse_domain_or_wild
 Proved against a reading of RFC 1035 section 5.1: a record line is `[owner] [ttl] [class] type rdata` with TTL and class in either
 order; an omitted owner or TTL is the previous record's; the class must be IN; `@` is the origin, a name ending in a dot is
 absolute, any other name is relative to the origin and needs one; `*` or `*.name` as owner makes a wildcard record; a SOA record's
-TTL is its MINIMUM field.  The text-level leaves are oracles: `try_parse_rtype_with_data` (type mnemonic + RDATA fields),
-`u32::from_str`, `DomainName::from_dotted_string` / `from_relative_dotted_string`, string comparisons with literals."""
+TTL is its MINIMUM field.  `try_parse_rtype_with_data`: the type mnemonic followed by the RDATA fields of that type (names, decimal numbers, addresses, or the
+octets of one token for uninterpreted data).  The text-level leaves are oracles: `RecordType::from_str`, `u32 / u16::from_str`,
+`Ipv4Addr / Ipv6Addr::from_str`, `DomainName::from_dotted_string` / `from_relative_dotted_string`, string comparisons with literals."""
 from units.base import *
 import re
 
 ZDESER = "crates/dns-types/src/zones/deserialise.rs"
 
 TRUSTED = TRUSTED_COMMON + [
-    "oracles: try_parse_rtype_with_data as `rdata_of(origin, tokens)` (which type mnemonic and RDATA fields a token list is), u32::from_str as `num_of(text)`, DomainName::from_dotted_string as `abs_name(text)`, DomainName::from_relative_dotted_string as `rel_name(origin, text)` (well-formedness of the names they build: unit names)",
+    "oracles: RecordType::from_str as `rtype_of_text`, u16::from_str as `num16_of`, Ipv4Addr / Ipv6Addr::from_str as `v4_of_text` / `v6_of_text`, u32::from_str as `num_of(text)`, DomainName::from_dotted_string as `abs_name(text)`, DomainName::from_relative_dotted_string as `rel_name(origin, text)` (well-formedness of the names they build: unit names)",
     "string shims (R33): `s == \"lit\"` as equality of the character sequences (string literals revealed with reveal_strlit), `s.chars().all(|c| c.is_ascii_digit())` as all_digits, `s.chars().collect::<Vec<char>>()` as the characters of s, `v[2..].iter().collect::<String>()` as the characters from index 2 on, `v.iter().all(char::is_ascii)`, `to_string()` without postcondition",
+    "axiom_bytes_ext: a Bytes value is determined by its octets (so a clone is the same value)",
     "R48: `&tokens[k..]` as a shim that REQUIRES k <= tokens.len() and returns the tokens from k on",
 ]
 
@@ -24,16 +26,25 @@ pub open spec fn all_ascii(s: Seq<char>) -> bool { forall|i: int| 0 <= i < s.len
 pub open spec fn all_digits(s: Seq<char>) -> bool { forall|i: int| 0 <= i < s.len() ==> '0' <= #[trigger] s[i] && s[i] <= '9' }
 pub open spec fn texts(v: Seq<(String, Bytes)>) -> Seq<Seq<char>> { Seq::new(v.len(), |i: int| v[i].0@) }
 // oracles
-pub uninterp spec fn rdata_of(origin: Option<DomainName>, tokens: Seq<(String, Bytes)>) -> Option<RecordTypeWithData>;
 pub uninterp spec fn num_of(s: Seq<char>) -> Option<u32>;
 pub uninterp spec fn abs_name(s: Seq<char>) -> Option<DomainName>;
 pub uninterp spec fn rel_name(origin: DomainName, s: Seq<char>) -> Option<DomainName>;
 pub open spec fn opt_dn(o: Option<&DomainName>) -> Option<DomainName> { match o { Some(n) => Some(*n), None => None } }
-#[verifier::external_body]
-fn try_parse_rtype_with_data(origin: Option<&DomainName>, tokens: &[(String, Bytes)]) -> (r: Option<RecordTypeWithData>)
-    ensures r == rdata_of(opt_dn(origin), tokens@), tokens@.len() == 0 ==> r is None,
-{ unimplemented!() }
+// a Bytes value is its octets (a clone is the same value)
+pub broadcast axiom fn axiom_bytes_ext(a: Bytes, b: Bytes) requires #[trigger] bv(&a) == #[trigger] bv(&b) ensures a == b;
+pub uninterp spec fn num16_of(s: Seq<char>) -> Option<u16>;
+pub uninterp spec fn rtype_of_text(s: Seq<char>) -> Option<RecordType>;
+pub uninterp spec fn v4_of_text(s: Seq<char>) -> Option<Ipv4Addr>;
+pub uninterp spec fn v6_of_text(s: Seq<char>) -> Option<Ipv6Addr>;
 pub struct ParseIntError { e: u8 }
+#[verifier::external_body]
+fn shim_u16_from_str(s: &str) -> (r: Result<u16, ParseIntError>) ensures r is Ok <==> num16_of(s@) is Some, r is Ok ==> r->Ok_0 == num16_of(s@)->Some_0 { unimplemented!() }
+#[verifier::external_body]
+fn shim_rtype_from_str(s: &str) -> (r: Result<RecordType, ParseIntError>) ensures r is Ok <==> rtype_of_text(s@) is Some, r is Ok ==> r->Ok_0 == rtype_of_text(s@)->Some_0 { unimplemented!() }
+#[verifier::external_body]
+fn shim_v4_from_str(s: &str) -> (r: Result<Ipv4Addr, ParseIntError>) ensures r is Ok <==> v4_of_text(s@) is Some, r is Ok ==> r->Ok_0 == v4_of_text(s@)->Some_0 { unimplemented!() }
+#[verifier::external_body]
+fn shim_v6_from_str(s: &str) -> (r: Result<Ipv6Addr, ParseIntError>) ensures r is Ok <==> v6_of_text(s@) is Some, r is Ok ==> r->Ok_0 == v6_of_text(s@)->Some_0 { unimplemented!() }
 #[verifier::external_body]
 fn shim_u32_from_str(s: &str) -> (r: Result<u32, ParseIntError>) ensures r is Ok <==> num_of(s@) is Some, r is Ok ==> r->Ok_0 == num_of(s@)->Some_0 { unimplemented!() }
 // R33 string shims
@@ -84,6 +95,40 @@ spec fn owner_den(origin: Option<DomainName>, s: Seq<char>) -> OwnerDen {
         if s.len() == 2 { OwnerDen::Owner(MaybeWildcard::Wildcard { name: root_dn() }) } else { lift(name_den(origin, s.skip(2)), true) }
     }
     else { lift(name_den(origin, s), false) }
+}
+// ---- the type and RDATA of a record (RFC 1035 3.3 / 5.1, RFC 3596, RFC 2782): the type mnemonic, then the RDATA fields of that type
+// as tokens: names as name tokens, numbers in decimal, addresses in their text form, uninterpreted data as the octets of one token
+spec fn nm(origin: Option<DomainName>, s: Seq<char>) -> Option<DomainName> { match name_den(origin, s) { NameDen::Name(n) => Some(n), _ => None } }
+#[verifier::opaque]
+spec fn rdata_of(origin: Option<DomainName>, toks: Seq<(String, Bytes)>) -> Option<RecordTypeWithData> {
+    if toks.len() == 0 { None } else {
+        let n = toks.len();
+        let t = |i: int| toks[i].0@;
+        match rtype_of_text(t(0)) {
+            Some(RecordType::A) => if n == 2 && v4_of_text(t(1)) is Some { Some(RecordTypeWithData::A { address: v4_of_text(t(1))->Some_0 }) } else { None },
+            Some(RecordType::AAAA) => if n == 2 && v6_of_text(t(1)) is Some { Some(RecordTypeWithData::AAAA { address: v6_of_text(t(1))->Some_0 }) } else { None },
+            Some(RecordType::NS) => if n == 2 && nm(origin, t(1)) is Some { Some(RecordTypeWithData::NS { nsdname: nm(origin, t(1))->Some_0 }) } else { None },
+            Some(RecordType::MD) => if n == 2 && nm(origin, t(1)) is Some { Some(RecordTypeWithData::MD { madname: nm(origin, t(1))->Some_0 }) } else { None },
+            Some(RecordType::MF) => if n == 2 && nm(origin, t(1)) is Some { Some(RecordTypeWithData::MF { madname: nm(origin, t(1))->Some_0 }) } else { None },
+            Some(RecordType::CNAME) => if n == 2 && nm(origin, t(1)) is Some { Some(RecordTypeWithData::CNAME { cname: nm(origin, t(1))->Some_0 }) } else { None },
+            Some(RecordType::MB) => if n == 2 && nm(origin, t(1)) is Some { Some(RecordTypeWithData::MB { madname: nm(origin, t(1))->Some_0 }) } else { None },
+            Some(RecordType::MG) => if n == 2 && nm(origin, t(1)) is Some { Some(RecordTypeWithData::MG { mdmname: nm(origin, t(1))->Some_0 }) } else { None },
+            Some(RecordType::MR) => if n == 2 && nm(origin, t(1)) is Some { Some(RecordTypeWithData::MR { newname: nm(origin, t(1))->Some_0 }) } else { None },
+            Some(RecordType::PTR) => if n == 2 && nm(origin, t(1)) is Some { Some(RecordTypeWithData::PTR { ptrdname: nm(origin, t(1))->Some_0 }) } else { None },
+            Some(RecordType::NULL) => if n == 2 { Some(RecordTypeWithData::NULL { octets: toks[1].1 }) } else { None },
+            Some(RecordType::WKS) => if n == 2 { Some(RecordTypeWithData::WKS { octets: toks[1].1 }) } else { None },
+            Some(RecordType::HINFO) => if n == 2 { Some(RecordTypeWithData::HINFO { octets: toks[1].1 }) } else { None },
+            Some(RecordType::TXT) => if n == 2 { Some(RecordTypeWithData::TXT { octets: toks[1].1 }) } else { None },
+            Some(RecordType::MINFO) => if n == 3 && nm(origin, t(1)) is Some && nm(origin, t(2)) is Some { Some(RecordTypeWithData::MINFO { rmailbx: nm(origin, t(1))->Some_0, emailbx: nm(origin, t(2))->Some_0 }) } else { None },
+            Some(RecordType::MX) => if n == 3 && num16_of(t(1)) is Some && nm(origin, t(2)) is Some { Some(RecordTypeWithData::MX { preference: num16_of(t(1))->Some_0, exchange: nm(origin, t(2))->Some_0 }) } else { None },
+            Some(RecordType::SRV) => if n == 5 && num16_of(t(1)) is Some && num16_of(t(2)) is Some && num16_of(t(3)) is Some && nm(origin, t(4)) is Some {
+                Some(RecordTypeWithData::SRV { priority: num16_of(t(1))->Some_0, weight: num16_of(t(2))->Some_0, port: num16_of(t(3))->Some_0, target: nm(origin, t(4))->Some_0 }) } else { None },
+            Some(RecordType::SOA) => if n == 8 && nm(origin, t(1)) is Some && nm(origin, t(2)) is Some && num_of(t(3)) is Some && num_of(t(4)) is Some && num_of(t(5)) is Some && num_of(t(6)) is Some && num_of(t(7)) is Some {
+                Some(RecordTypeWithData::SOA { mname: nm(origin, t(1))->Some_0, rname: nm(origin, t(2))->Some_0, serial: num_of(t(3))->Some_0, refresh: num_of(t(4))->Some_0,
+                    retry: num_of(t(5))->Some_0, expire: num_of(t(6))->Some_0, minimum: num_of(t(7))->Some_0 }) } else { None },
+            _ => None,
+        }
+    }
 }
 // ---- a record line: `[owner] [ttl] [class] type rdata`, TTL and class in either order, class IN; the type and RDATA are the
 // longest tail of at most ... tokens that is one (the three optional fields come first, so at most three tokens precede it)
@@ -150,7 +195,58 @@ TOK_RW = [("R48", r"&tokens\[(\d)\.\.\]", r"shim_tail(&tokens, \1)"),
           ("R33", r"tokens\[1\]\.0\.clone\(\)", "shim_string_clone(&tokens[1].0)"),
           ("R33", r"&tokens\[(\d)\]\.0\b(?!\.)", r"tokens[\1].0.as_str()")]
 
+WRITE_RS = """
+// ---- the writing side of uninterpreted RDATA (zones/serialise.rs): one quoted string
+pub struct Zone { z: u8 }
+impl Zone {
+    #[verifier::external_body]
+    fn serialise_domain(&self, name: &DomainName) -> (r: String) { unimplemented!() }
+}
+pub assume_specification<'a> [<bytes::Bytes as std::ops::Deref>::deref] (b: &'a bytes::Bytes) -> (r: &'a [u8]) ensures r@ == bv(b);
+// serialise_octets: contract proved in unit zone_text
+#[verifier::external_body]
+fn serialise_octets(octets: &[u8], quoted: bool) -> (out: String) ensures out@ == esc(octets@, quoted) { unimplemented!() }
+// R27: format!(..) of addresses, numbers and names: text without postcondition
+#[verifier::external_body] fn shim_fmt_v4(a: &Ipv4Addr) -> (r: String) { format!("{a}") }
+#[verifier::external_body] fn shim_fmt_v6(a: &Ipv6Addr) -> (r: String) { format!("{a}") }
+#[verifier::external_body] fn shim_fmt_any() -> (r: String) { String::new() }
+"""
+
+def _fmt(txt):
+    """R27: every `format!(...)` in serialise_rdata is text built from Display of addresses, numbers and names: replaced by a shim
+    without postcondition (what is written for those is not decided here)."""
+    import re
+    n = 0
+    out, i = [], 0
+    while True:
+        m = re.search(r"format!\(", txt[i:])
+        if not m:
+            out.append(txt[i:]); break
+        a = i + m.start(); b = i + m.end(); depth = 1
+        while depth:
+            c = txt[b]
+            if c == "(": depth += 1
+            elif c == ")": depth -= 1
+            b += 1
+        seg = txt[a:b]
+        out.append(txt[i:a] + "shim_fmt_any()" + "\n" * seg.count("\n"))
+        i = b; n += 1
+    return "".join(out), n
+
 SPECS = {
+    "Zone::serialise_rdata": {"props": ["C13"], "rewrites": [("R27", _fmt)],
+        "contract": """    ensures
+        rtype_with_data is NULL ==> r@ == esc(bv(&rtype_with_data->NULL_octets), true),
+        rtype_with_data is WKS ==> r@ == esc(bv(&rtype_with_data->WKS_octets), true),
+        rtype_with_data is HINFO ==> r@ == esc(bv(&rtype_with_data->HINFO_octets), true),
+        rtype_with_data is TXT ==> r@ == esc(bv(&rtype_with_data->TXT_octets), true),
+        rtype_with_data is Unknown ==> r@ == esc(bv(&rtype_with_data->Unknown_octets), true), // [C13:uninterpreted_rdata_is_written_as_one_quoted_string_of_its_octets]"""},
+    "try_parse_rtype_with_data": {"props": ["C11", "C13", "C17"],
+        "rewrites": [("R2", r"RecordType::from_str\(", "shim_rtype_from_str("), ("R2", r"Ipv4Addr::from_str\(", "shim_v4_from_str("), ("R2", r"Ipv6Addr::from_str\(", "shim_v6_from_str("),
+                     ("R2", r"u32::from_str\(", "shim_u32_from_str("), ("R2", r"u16::from_str\(", "shim_u16_from_str("),
+                     ("R33", r"&tokens\[(\d)\]\.0\b(?!\.)", r"tokens[\1].0.as_str()")],
+        "contract": """    ensures r == rdata_of(opt_dn(origin), tokens@), // [C11,C13:type_and_rdata_tokens_denote_the_record_data_of_that_type]""",
+        "entry": "reveal(rdata_of); broadcast use axiom_bytes_ext, group_eq_axioms;"},
     "parse_rr": {"props": ["C11", "C17"], "rewrites": TOK_RW,
         "contract": """    ensures
         match rr_den(opt_dn(origin), opt_mw(previous_domain), previous_ttl, tokens@) { Some(e) => r is Ok && r->Ok_0 == e, None => r is Err }, // [C11:a_record_line_is_owner_ttl_class_type_rdata_in_either_order_with_omissions_inherited_and_class_in]""",
@@ -188,6 +284,12 @@ SPECS = {
 }
 
 CANARIES = [
+    {"name": "txt_rdata_written_unquoted", "file": "crates/dns-types/src/zones/serialise.rs", "old": "            RecordTypeWithData::TXT { octets } => serialise_octets(octets, true),", "new": "            RecordTypeWithData::TXT { octets } => serialise_octets(octets, false),"},
+    {"name": "mx_fields_swapped", "file": ZDESER, "old": "                u16::from_str(&tokens[1].0),\n                parse_domain(origin, &tokens[2].0),\n            ) {\n                (Ok(preference), Ok(exchange))", "new": "                u16::from_str(&tokens[2].0),\n                parse_domain(origin, &tokens[1].0),\n            ) {\n                (Ok(preference), Ok(exchange))"},
+    {"name": "soa_expire_and_minimum_swapped", "file": ZDESER, "old": "            (Ok(mname), Ok(rname), Ok(serial), Ok(refresh), Ok(retry), Ok(expire), Ok(minimum)) => {", "new": "            (Ok(mname), Ok(rname), Ok(serial), Ok(refresh), Ok(retry), Ok(minimum), Ok(expire)) => {"},
+    {"name": "txt_with_extra_tokens_accepted", "file": ZDESER, "old": "        Ok(RecordType::TXT) if tokens.len() == 2 => Some(RecordTypeWithData::TXT {", "new": "        Ok(RecordType::TXT) if tokens.len() >= 2 => Some(RecordTypeWithData::TXT {"},
+    {"name": "srv_indexes_a_token_that_is_not_there", "file": ZDESER, "old": "        Ok(RecordType::SRV) if tokens.len() == 5 => match (", "new": "        Ok(RecordType::SRV) if tokens.len() >= 4 => match ("},
+    {"name": "hinfo_takes_the_type_token_as_data", "file": ZDESER, "old": "        Ok(RecordType::HINFO) if tokens.len() == 2 => Some(RecordTypeWithData::HINFO {\n            octets: tokens[1].1.clone(),", "new": "        Ok(RecordType::HINFO) if tokens.len() == 2 => Some(RecordTypeWithData::HINFO {\n            octets: tokens[0].1.clone(),"},
     {"name": "ttl_taken_from_the_class_position", "file": ZDESER, "old": "            let ttl = if tokens[2].0 == \"IN\" {\n                parse_u32(&tokens[1].0)?", "new": "            let ttl = if tokens[2].0 == \"IN\" {\n                parse_u32(&tokens[2].0)?"},
     {"name": "class_other_than_in_accepted", "file": ZDESER, "old": "            } else {\n                return Err(Error::Unexpected {\n                    expected: \"IN\".to_string(),\n                    tokens,\n                });\n            };", "new": "            } else {\n                parse_u32(&tokens[1].0)?\n            };"},
     {"name": "missing_ttl_defaults_to_zero", "file": ZDESER, "old": "                    } else if rtype_with_data.rtype() == RecordType::SOA {\n                        Ok(to_rr(wname, rtype_with_data, 0))\n                    } else {\n                        Err(Error::MissingTTL { tokens })\n                    }\n                }\n            } else if tokens[0].0 == \"IN\" {", "new": "                    } else {\n                        Ok(to_rr(wname, rtype_with_data, 0))\n                    }\n                }\n            } else if tokens[0].0 == \"IN\" {"},
@@ -226,8 +328,14 @@ def build(G):
     G.top_fn(D, "to_rr", specs)
     G.top_fn(D, "parse_domain", specs)
     G.top_fn(D, "parse_domain_or_wildcard", specs)
+    G.top_fn(D, "try_parse_rtype_with_data", specs)
     G.raw(SPEC2_RS, ("spec", "zone_rr spec 2"))
     G.top_fn(D, "parse_origin", specs)
     G.top_fn(D, "parse_include", specs)
     G.top_fn(D, "parse_rr", specs)
+    zt = open(os.path.join(os.path.dirname(__file__), "zone_text.spec.rs")).read()
+    G.raw(zt[zt.index("// -- writing: how one octet is written"):zt.index("pub proof fn lemma_esc_body_push")], ("spec", "esc (shared with zone_text)"))
+    G.raw(WRITE_RS, ("spec", "zone_rr writer stand-ins"))
+    ZS = G.src("crates/dns-types/src/zones/serialise.rs")
+    G.impl(ZS, "Zone", ["serialise_rdata"], "Zone::", specs)
     end(G)
